@@ -75,7 +75,7 @@ func (env *Envelope) SetMetadataKeyValue(key string, value string) *Envelope {
 
 // Sender returns the envelope sender Node.
 func (env *Envelope) Sender() Node {
-	if env.PP == (Node{}) {
+	if env.PP != (Node{}) {
 		return env.PP
 	} else {
 		return env.From
